@@ -36,9 +36,9 @@ use anyhow::{Context, Result, anyhow, bail};
 #[cfg(not(rustrtc_verif))]
 use tokio::net::{TcpListener, TcpStream, UdpSocket, lookup_host};
 #[cfg(rustrtc_verif)]
-use tokio::net::{TcpListener, TcpStream, lookup_host};
+use tokio::net::lookup_host;
 #[cfg(rustrtc_verif)]
-use crate::verif_hooks::UdpSocket;
+use crate::verif_hooks::{TcpListener, TcpStream, UdpSocket};
 use tokio::sync::{Mutex, broadcast, mpsc, oneshot, watch};
 use tokio::time::timeout;
 use tracing::{debug, instrument, trace, warn};
@@ -2889,8 +2889,14 @@ fn frame_stun_for_tcp(data: &[u8]) -> Vec<u8> {
     framed
 }
 
+#[cfg(not(rustrtc_verif))]
 type TcpReadHalf = tokio::net::tcp::OwnedReadHalf;
+#[cfg(not(rustrtc_verif))]
 type TcpWriteHalf = tokio::net::tcp::OwnedWriteHalf;
+#[cfg(rustrtc_verif)]
+type TcpReadHalf = crate::verif_hooks::tcp::OwnedReadHalf;
+#[cfg(rustrtc_verif)]
+type TcpWriteHalf = crate::verif_hooks::tcp::OwnedWriteHalf;
 
 fn split_tcp_stream(stream: TcpStream, peer: SocketAddr) -> IceSocketWrapper {
     if let Err(e) = stream.set_nodelay(true) {
